@@ -29,6 +29,8 @@ def prop(line, impl, model):
             return prop_jwin(line, impl)
         if op == "jwrite":
             return prop_jwrite(line, impl)
+        if op == "jipc":
+            return (prop_jipc(line, impl) or (None, None))[1]
         if op == "bin":
             n, v = int(a[2]), int(impl)
             if not (n <= v < n + 8 and v % 8 == 0):
@@ -327,6 +329,126 @@ def gen_journal(ctx):
         add("jwrite %d %s" % (k, ",".join(ops)), "jwrite-realtime")
     return lines, kinds
 
+# ---------------------------------------------------------------- journal behind the broker (call site)
+def parse_jipc_ops(tok):
+    """-> list of (kind, tick, ip, type, outcome)"""
+    ops = []
+    for o in (tok.split(",") if tok != "-" else []):
+        if o[0] == "p":
+            t, ip, ty, out = o[1:].split(".")
+            ops.append(("p", int(t), ip, int(ty), out))
+        else:
+            ops.append((o[0], int(o[1:]), None, None, None))
+    return ops
+
+
+def prop_jipc(line, impl):
+    """The property on the implementation's own journal: every window made of whole chunks counts exactly the distinct
+    addresses whose ACCEPTED polls happened inside it (the chunk boundaries are read from the journal itself);
+    per-type unique figures count an address once per type and period.  -> None or (key, text)"""
+    a = line.split(" ")
+    ops = parse_jipc_ops(a[3])
+    acc = [(t, ip, ty) for (k, t, ip, ty, out) in ops if k == "p" and out == "a"]
+    d = kv(impl)
+    chunks = [tuple(map(int, c.split(":"))) for c in d["chunks"].split(";")] if d["chunks"] != "-" else []
+    prev = 0
+    for (s, e, card) in chunks:
+        if s != prev or e < s:
+            return ("journal-writer", "journal chunks do not tile the time line: chunk [%d,%d] follows instant %d" % (s, e, prev))
+        prev = e
+    if ops and ops[-1][0] == "f" and prev != ops[-1][1]:
+        return ("journal-writer", "after the final flush at %d the journal ends at %d" % (ops[-1][1], prev))
+    wins = {}
+    if d["wins"] != "-":
+        for w in d["wins"].split(","):
+            ij, sm, n = w.split(":")
+            wins[tuple(map(int, ij.split("-")))] = (int(sm), int(n))
+    for i in range(len(chunks)):
+        for j in range(i, len(chunks)):
+            frm, to = chunks[i][0], chunks[j][1]
+            if (i, j) not in wins:
+                return ("journal-broker-window", "no answer for the window of chunks %d..%d" % (i, j))
+            sm, n = wins[(i, j)]
+            inside = len([c for c in chunks if frm <= c[0] and c[1] <= to])
+            if n != inside:
+                return ("journal-broker-window", "window [%d,%d]: %d chunks included, %d lie inside it" % (frm, to, n, inside))
+            want = set(ip for (t, ip, ty) in acc if frm <= t < to)
+            if sm != len(want):
+                before = set(ip for (t, ip, ty) in acc if t < frm)
+                if sm < len(want) and (want & before):
+                    return ("journal-misses-repeated-address",
+                            "journal window [%d,%d] (chunks %d..%d) counts %d distinct addresses, but %d distinct proxy addresses "
+                            "polled inside it (%s); %s had already polled before the window" %
+                            (frm, to, i, j, sm, len(want), ",".join(sorted(want)), ",".join(sorted(want & before))))
+                return ("journal-broker-window", "journal window [%d,%d] (chunks %d..%d) counts %d distinct addresses; %d distinct "
+                        "proxy addresses polled inside it (%s)" % (frm, to, i, j, sm, len(want), ",".join(sorted(want))))
+    # unique-address figures of the metrics period that is open at the end
+    sets = {u: set() for u in range(5)}
+    for (k, t, ip, ty, out) in ops:
+        if k == "z":
+            sets = {u: set() for u in range(5)}
+        elif k == "p" and out == "a":
+            sets[ty if ty < 4 else 4].add(ip)
+    want = [len(sets[u]) for u in range(4)] + [sum(len(x) for x in sets.values())]
+    got = d["uniq"].split(".")
+    if got != [str(x) for x in want]:
+        return ("unique-address-count", "unique-address figures (4 types, total) are %s; the distinct addresses per type are %s"
+                % (d["uniq"], ".".join(map(str, want))))
+    return None
+
+
+def gen_jipc(ctx):
+    rng = ctx.rng
+    thorough = ctx.tier == "thorough"
+    lines, kinds = [], []
+    def add(k, ops, kind):
+        lines.append("%s jipc %d %s" % (AREA, k, ",".join(ops) if ops else "-")); kinds.append(kind)
+    def batches(k, bs, zero_after=(), final=True):
+        """bs = list of batches of (ip, type, outcome); consecutive polls one tick apart, batches k+1.. ticks apart"""
+        t, ops = 0, []
+        for bi, b in enumerate(bs):
+            t += (k + 1) if bi else 1
+            for (ip, ty, out) in b:
+                ops.append("p%d.%d.%d.%s" % (t, ip, ty, out)); t += 1
+            if bi in zero_after:
+                ops.append("z%d" % t); t += 1
+        if final:
+            ops.append("f%d" % (t + 1))
+        return ops
+    A = lambda ip, ty=0: (ip, ty, "a")
+    # the same address in several chunks of one metrics period (same type / other type / unknown types), at every
+    # position of a batch; with and without a period boundary in between
+    add(2, batches(2, [[A(1), A(2), A(3)], [A(1), A(4), A(1)], [A(2), A(4), A(5), A(3)]]), "jipc-repeat-across-chunks")
+    add(1, batches(1, [[A(1)], [A(2), A(1)], [A(3), A(1)], [A(1), A(3)]]), "jipc-repeat-across-chunks")
+    add(3, batches(3, [[A(1, 0), A(1, 1)], [A(2, 1), A(1, 1), A(1, 0)], [A(2, 4), A(1, 5), A(2, 6)]]), "jipc-repeat-across-chunks")
+    add(2, batches(2, [[A(1), A(2)], [A(3), A(1), A(2)], [A(3), A(2)]], zero_after=(1,)), "jipc-repeat-and-period-end")
+    add(2, batches(2, [[A(7), A(8)], [A(9), (7, 0, "r"), (8, 0, "n")], [A(9), A(7)]]), "jipc-rejected-not-recorded")
+    add(2, batches(2, [[A(1), A(2)], [A(3), A(1)]], final=False), "jipc-open-chunk")
+    add(0, [], "jipc-empty")
+    for pos in range(3):
+        for ty2 in (0, 1, 5):
+            second = [A(10), A(11)]
+            second.insert(pos, A(1, ty2))
+            add(2, batches(2, [[A(1, 0), A(2, 0)], second]), "jipc-repeat-position")
+    # random histories over a small universe: repetitions are the rule
+    for _ in range(40 if not thorough else 500):
+        k = rng.choice([1, 2, 2, 3])
+        t, ops = 0, []
+        for _ in range(rng.randrange(4, 15)):
+            t += rng.choice([1, 1, 1, 2, k + 1, k + 2])
+            r = rng.random()
+            if r < 0.06:
+                ops.append("z%d" % t)
+            elif r < 0.11:
+                ops.append("f%d" % t)
+            else:
+                out = "a" if rng.random() < 0.85 else rng.choice("rn")
+                ops.append("p%d.%d.%d.%s" % (t, rng.randrange(1, 5), rng.choice([0, 0, 0, 1, 4, 5]), out))
+        if rng.random() < 0.85:
+            ops.append("f%d" % (t + rng.choice([1, 2, k + 2])))
+        add(k, ops, "jipc-random")
+    return lines, kinds
+
 
 def key_of(line, impl, model):
     a = line.split(" ")
@@ -335,6 +457,11 @@ def key_of(line, impl, model):
         return "journal-window"
     if op == "jwrite":
         return "journal-writer"
+    if op == "jipc":
+        try:
+            return (prop_jipc(line, impl) or ("journal-broker", None))[0]
+        except (ValueError, KeyError, IndexError):
+            return "journal-broker"
     if op == "ipc":
         try:
             return key_ipc(line, impl)
@@ -363,7 +490,8 @@ def gen_round8(ctx):
         add("conc %d %d %d" % (k, 1, 40), "inc-conc-1")
         add("conc %d %d %d" % (k, rng.choice([3, 5, 7, 9, 11]), 20), "inc-conc-n")
     add("conc 4 25001 4", "inc-conc-bulk")
-    rounds = 2000 if not thorough else 8000
+    # persistent spinning workers: ~10^5 boundary crossings per second and more
+    rounds = 200000 if not thorough else 1000000
     for k in ((2, 2, 3, 8) if not thorough else (2, 2, 3, 4, 5, 8)):
         add("race %d %d" % (k, rounds), "inc-race-at-boundary")
     add("race 1 50", "inc-race-at-boundary")
@@ -375,7 +503,7 @@ def run(ctx):
     exe = vlib.go_test_build("./broker", name="broker_c19.test")
     ctx.trusted.append("float64 in binCount is exact below 2^53 (stated, not proved); real goroutine schedules are sampled, "
                        "all interleavings are covered by the theorem about the modelled steps")
-    ctx.assumptions += ["models = coq/Model/Round8.v, Metrics.v, Journal.v (hand written); tie = correspondence on generated cases"]
+    ctx.assumptions += ["models = coq/Model/Round8.v, Metrics.v, Journal.v, BrokerJournal.v (hand written); tie = correspondence on generated cases"]
     lines, kinds = gen_round8(ctx)
     ctx.correspond(exe, lines, kinds, label="round8", prop=prop, key_of=key_of, impl_args=DRV_ARGS)
     os.environ["VERIF_C19_GEOIP_DIR"] = os.path.join(vlib.REPO, "broker")
@@ -386,6 +514,9 @@ def run(ctx):
                        "HMAC-SHA3 mask modelled as an injective function")
     lines, kinds = gen_journal(ctx)
     ctx.correspond(jexe, lines, kinds, label="ip-journal", prop=prop, key_of=key_of)
+    # the journal behind the real IPC.ProxyPolls (call site: every accepted poll is recorded at its instant)
+    lines, kinds = gen_jipc(ctx)
+    ctx.correspond(exe, lines, kinds, label="broker-journal-call-site", prop=prop, key_of=key_of, impl_args=DRV_ARGS)
 
 
 def replay(ctx, doc):
